@@ -10,6 +10,7 @@ import (
 	"fmt"
 	"os"
 	"sort"
+	"sync"
 	"time"
 
 	"github.com/ipfs/boxo/blockservice"
@@ -36,6 +37,8 @@ type Env struct {
 	BS   bstore.Blockstore
 	BSrv blockservice.BlockService
 	DS   ipld.DAGService
+
+	faults *faults
 }
 
 // NewEnv returns a fresh, empty, offline environment.
@@ -48,33 +51,72 @@ func NewEnv() *Env {
 // ctxStore makes the in-memory blockstore honour context cancellation the way
 // a real store or a remote exchange does: a read with a context that is already
 // done fails with the context's error.
-type ctxStore struct{ bstore.Blockstore }
+type ctxStore struct {
+	bstore.Blockstore
+	f *faults
+}
+
+// faults are injected read errors per CID (shared by the copies of ctxStore).
+type faults struct {
+	mu sync.Mutex
+	m  map[string]error
+}
+
+func (s ctxStore) fault(ctx context.Context, c cid.Cid) error {
+	if err := ctx.Err(); err != nil {
+		return err
+	}
+	if s.f == nil {
+		return nil
+	}
+	s.f.mu.Lock()
+	defer s.f.mu.Unlock()
+	return s.f.m[string(c.Hash())]
+}
+
+// SetFault makes every read of c fail with err until ClearFaults (only for an
+// Env made by NewEnvCtx).
+func (e *Env) SetFault(c cid.Cid, err error) {
+	e.faults.mu.Lock()
+	e.faults.m[string(c.Hash())] = err
+	e.faults.mu.Unlock()
+}
+
+// ClearFaults removes all injected faults.
+func (e *Env) ClearFaults() {
+	e.faults.mu.Lock()
+	e.faults.m = map[string]error{}
+	e.faults.mu.Unlock()
+}
 
 func (s ctxStore) Get(ctx context.Context, c cid.Cid) (blocks.Block, error) {
-	if err := ctx.Err(); err != nil {
+	if err := s.fault(ctx, c); err != nil {
 		return nil, err
 	}
 	return s.Blockstore.Get(ctx, c)
 }
 
 func (s ctxStore) GetSize(ctx context.Context, c cid.Cid) (int, error) {
-	if err := ctx.Err(); err != nil {
+	if err := s.fault(ctx, c); err != nil {
 		return 0, err
 	}
 	return s.Blockstore.GetSize(ctx, c)
 }
 
 func (s ctxStore) Has(ctx context.Context, c cid.Cid) (bool, error) {
-	if err := ctx.Err(); err != nil {
+	if err := s.fault(ctx, c); err != nil {
 		return false, err
 	}
 	return s.Blockstore.Has(ctx, c)
 }
 
 // NewEnvCtx is NewEnv over a blockstore that refuses reads whose context is
-// already cancelled.
+// already cancelled, and that can be told to fail reads of chosen blocks.
 func NewEnvCtx() *Env {
-	return NewEnvOver(ctxStore{bstore.NewBlockstore(dssync.MutexWrap(ds.NewMapDatastore()))})
+	f := &faults{m: map[string]error{}}
+	e := NewEnvOver(ctxStore{bstore.NewBlockstore(dssync.MutexWrap(ds.NewMapDatastore())), f})
+	e.faults = f
+	return e
 }
 
 // NewEnvOver builds the services over an existing blockstore (used to replay a
